@@ -19,6 +19,12 @@ Reply (one line): `<id> <marginal> ` then for every non-fixed node in ascending 
 `<denominator> <inside row: G> <outside row: G> <posterior probabilities: G> <mean> <variance>`
 (the last G+2 values are the post-processing of core.py: standardize, to linear space,
 to_probabilities, mean_var); or `<id> bad-op`.
+Other operations (line `op <name>`):
+  op mutedges / nedges <n> / sedges <id left right p c>... (left, right as num/den) / muts <pos node>...
+      reply `<id> <count per edge>...`            (model of Likelihoods.get_mut_edges)
+  op priorseq / tag lin|log / nrows <n> / row <k> <hex64>... / seq lin|log ...
+      reply `<id> <tag> <values of all rows> ; <tag> <values> ; ...`  (the shared prior object as seen
+      by each run of the sequence: NodeTimeValues.force_probability_space in BeliefPropagation.__init__)
 With a line `brute 1` the reply continues with ` | <bruteZ> ` and, per non-fixed node, the G exhaustive
 marginals of `Spec/BruteForce.lean` evaluated on `inp.toTreeModel` (small inputs only).
 -/
@@ -111,7 +117,47 @@ def runWith {α : Type} [Inhabited α] [Add α] [Sub α] [Mul α] [Div α] [OfNa
 
 def negInf : Float := -(1.0 / 0.0)
 
+def spanEdges : List String → Option (List (SpanEdge Rat))
+  | [] => some []
+  | i :: l :: r :: p :: c :: rest => do
+    let e : SpanEdge Rat := { id := ← i.toNat?, left := ← parseRat l, right := ← parseRat r,
+                              p := ← p.toNat?, c := ← c.toNat? }
+    let es ← spanEdges rest
+    pure (e :: es)
+  | _ => none
+
+def runMutEdges (blk : List (List String)) : Option String := do
+  let id ← (← field blk "case").head?
+  let n ← (← (← field blk "nedges").head?).toNat?
+  let es ← spanEdges (← field blk "sedges")
+  let muts ← pairsNV parseRat ((← field blk "muts").foldr (fun x acc => x :: acc) [])
+  -- muts are given as `<pos> <node>`; pairsNV parses `<nat> <value>`, so swap on input: `<node> <pos>`
+  let counts := mutEdges n es (muts.map (fun m => (m.2, m.1)))
+  pure (id ++ " " ++ " ".intercalate (counts.toList.map toString))
+
+def spaceOf (s : String) : Option Space :=
+  if s = "lin" then some Space.lin else if s = "log" then some Space.log else none
+
+def spaceName : Space → String
+  | Space.lin => "lin"
+  | Space.log => "log"
+
+def runPriorSeq (blk : List (List String)) : Option String := do
+  let id ← (← field blk "case").head?
+  let tag ← spaceOf (← (← field blk "tag").head?)
+  let n ← (← (← field blk "nrows").head?).toNat?
+  let grid ← keyedRows hexToFloat n (fieldsAll blk "row")
+  let seq ← mapAll spaceOf (← field blk "seq")
+  let seen := runSeq Float.log Float.exp seq { space := tag, grid := grid }
+  let showObj (q : PriorObj Float) : String :=
+    spaceName q.space ++ " " ++ " ".intercalate (q.grid.toList.map (fun r => " ".intercalate (r.toList.map floatToHex)))
+  pure (id ++ " " ++ " ; ".intercalate (seen.map showObj))
+
 def runCase (blk : List (List String)) : Option String := do
+  match (field blk "op").bind List.head? with
+  | some "mutedges" => runMutEdges blk
+  | some "priorseq" => runPriorSeq blk
+  | _ =>
   let carrier ← (← field blk "carrier").head?
   let space ← (← field blk "space").head?
   match carrier, space with
